@@ -352,7 +352,10 @@ def m_into(it, args, callee, depth):
     tgt = it.resolve_generic(tgt, env) if isinstance(tgt, str) else tgt
     dv = A.deref_all(it, v)
     # a user-written `impl From<Src> for Dst` (e.g. polar/spherical <-> Cartesian) is a real conversion: run it
-    src = it.resolve_generic(ga[0], env) if (is_into and ga) else None
+    rb = it.prog.lookup(res) if res else None
+    if rb is not None and rb.impl_trait is not None:
+        return it.call_body(rb, [v], depth + 1)
+    src = it.resolve_generic(ga[0], env) if (is_into and ga) else (it.resolve_generic(ga[1], env) if (not is_into and len(ga) > 1) else None)
     if isinstance(src, str) and isinstance(tgt, str):
         idx = getattr(it.prog, "_from_impls", None)
         if idx is None:
@@ -386,6 +389,7 @@ ALG_MODELS = {
     "core::ops::arith::Div": m_arith("Div"),
     "core::ops::arith::Neg": m_arith("Neg"),
     "core::slice::<impl [T]>::iter": m_slice_iter,
+    "core::slice::<impl [T]>::iter_mut": m_slice_iter,
     "IntoIterator::into_iter": m_into_iter,
     "core::iter::traits::iterator::Iterator::zip": m_zip,
     "core::iter::adapters::zip::zip": m_zip,
@@ -524,6 +528,11 @@ def reduce_mod(p, rels):
 
 def interp(prog, models=None, oracle=None):
     m = dict(ALG_MODELS)
+    # the std transfer functions of sa/constfold.py (Vec, slices, iterator adaptors, mem::swap, integer helpers ...) are part of every
+    # interpretation; the ring domain's own models and the caller's keep priority for the same key
+    from . import constfold as CF
+    for k, v in CF.MODELS.items():
+        m.setdefault(k, v)
     m.update(models or {})
     return A.Interp(prog, oracle=oracle, models=m, fuel=2000000, max_depth=64)
 
@@ -640,28 +649,41 @@ def _truth(it, v):
 
 
 def m_all(it, args, callee, depth):
-    for x in _drain(as_iter(it, args[0]), it, depth):
+    for x in _lazy(as_iter(it, args[0]), it, depth):
         if not _truth(it, it.invoke(args[1], [x], depth)):
             return 0
     return 1
 
 
+def _lazy(itobj, it, depth):
+    """items one at a time (short-circuiting adaptors consume only what they look at; the source may be unbounded)"""
+    n = 0
+    while True:
+        x = itobj.next(it, depth)
+        if x is None:
+            return
+        yield x
+        n += 1
+        if n > 4096:
+            raise A.Undecided("iterator too long")
+
+
 def m_any(it, args, callee, depth):
-    for x in _drain(as_iter(it, args[0]), it, depth):
+    for x in _lazy(as_iter(it, args[0]), it, depth):
         if _truth(it, it.invoke(args[1], [x], depth)):
             return 1
     return 0
 
 
 def m_position(it, args, callee, depth):
-    for i, x in enumerate(_drain(as_iter(it, args[0]), it, depth)):
+    for i, x in enumerate(_lazy(as_iter(it, args[0]), it, depth)):
         if _truth(it, it.invoke(args[1], [x], depth)):
             return A.some(i)
     return A.NONE
 
 
 def m_find(it, args, callee, depth):
-    for x in _drain(as_iter(it, args[0]), it, depth):
+    for x in _lazy(as_iter(it, args[0]), it, depth):
         cell = A.Frame(None)
         cell.locals[0] = x
         if _truth(it, it.invoke(args[1], [("ref", cell, 0, [])], depth)):
